@@ -667,7 +667,12 @@ class _Gen:
         elif self.usize_consts and "const_chain" in self.f and r.random() < 0.6:
             c = r.choice(sorted(self.usize_consts))
             it.deps.add(c)
-            if r.random() < 0.4:
+            if "pointers" in self.f and r.random() < 0.35:
+                # the other constant is read through a pointer to it
+                val = self.usize_consts[c] + 1
+                it.render = lambda ref: "%s : usize : comptime { p := ^%s; p^ + 1 };" % (name, ref(c))
+                self.force_size_use = name
+            elif r.random() < 0.4:
                 val = self.usize_consts[c] + 1
                 it.render = lambda ref: "%s : usize : comptime { %s + 1 };" % (name, ref(c))
             else:
